@@ -1279,7 +1279,8 @@ Lemma tok_skipSuffix_sound suf t t' : tok_skipSuffix suf t = (true, t') -> t = t
 Proof.
   unfold tok_skipSuffix. destruct (lenN t <? lenN suf); [intros H; inversion H|].
   destruct (list_eqb (dropN (lenN t - lenN suf) t) suf) eqn:E; [|intros H; inversion H].
-  intros H; inversion H; subst t'. apply list_eqb_eq in E. rewrite <- E at 3. symmetry. apply takeN_dropN.
+  intros H; inversion H; subst t'. apply list_eqb_eq in E.
+  pose proof (takeN_dropN (lenN t - lenN suf) t) as G. rewrite E in G. symmetry. exact G.
 Qed.
 
 Lemma tok_skipOneTrailing_sound set t t' :
